@@ -58,7 +58,9 @@ Policies == {"DEFAULT", "EDIF"}
 FoldTable == [a |-> "a", A |-> "a", b |-> "b", B |-> "b", c |-> "c", ab |-> "ab", Ab |-> "ab",
               aB |-> "ab", AB |-> "ab"]
 Fold(v)  == IF v \in DOMAIN FoldTable THEN FoldTable[v] ELSE v
-IllegalIds == {"1x", "a-b", "_a", "a b", "&"}
+\* "@N:c" is a token for N-1 letters a followed by c, "&N:c" the same behind a leading &: a plain identifier may have 255
+\* characters, one that starts with & 256
+IllegalIds == {"1x", "a-b", "_a", "a b", "&", "@256:x", "&257:x"}
 EdifLegal(v) == v \notin IllegalIds /\ v # NoVal
 
 ---------------------------------------------------------------------------
